@@ -25,6 +25,8 @@ func checkC01(c *Ctx, r *Result, tier string) {
 	c01Memo(c, r)
 	c01Shifts(c, r)
 	c01Siblings(c, r)
+	c01Pipeline(c, r)
+	c01Fresh(c, r)
 }
 
 // structFieldsRead: fields of struct type T read by fn and everything it reaches in the module.
@@ -585,4 +587,472 @@ func keysOf(m map[string]bool) string {
 	}
 	sort.Strings(s)
 	return strings.Join(s, ",")
+}
+
+// ---- R01e: the filter pipeline of ProcessEvent --------------------------------------------------
+
+// appendedElems: for an append call, the element values appended (through the varargs array).
+func appendedElems(call *ssa.Call) []ssa.Value {
+	var out []ssa.Value
+	if len(call.Call.Args) != 2 {
+		return nil
+	}
+	sl, ok := call.Call.Args[1].(*ssa.Slice)
+	if !ok {
+		return nil
+	}
+	a, ok := sl.X.(*ssa.Alloc)
+	if !ok {
+		return nil
+	}
+	for _, ref := range *a.Referrers() {
+		if ia, ok := ref.(*ssa.IndexAddr); ok {
+			for _, ref2 := range *ia.Referrers() {
+				if st, ok := ref2.(*ssa.Store); ok && st.Addr == ia {
+					out = append(out, st.Val)
+				}
+			}
+		}
+	}
+	return out
+}
+
+// sliceAppends: the append calls a slice value is built from (through phis and the
+// destination chain of appends); bases = other origins (calls, parameters, fields).
+func sliceAppends(v ssa.Value) (apps []*ssa.Call, bases []ssa.Value) {
+	seen := map[ssa.Value]bool{}
+	var walk func(v ssa.Value, d int)
+	walk = func(v ssa.Value, d int) {
+		if v == nil || seen[v] || d > 30 {
+			return
+		}
+		seen[v] = true
+		v = unspill(v)
+		switch x := v.(type) {
+		case *ssa.Phi:
+			for _, e := range x.Edges {
+				walk(e, d+1)
+			}
+		case *ssa.Call:
+			if isBuiltinCall(x, "append") {
+				apps = append(apps, x)
+				walk(x.Call.Args[0], d+1)
+				return
+			}
+			bases = append(bases, x)
+		case *ssa.Const:
+		case *ssa.UnOp:
+			if a, ok := x.X.(*ssa.Alloc); ok {
+				for _, s := range cellSources(a) {
+					walk(s, d+1)
+				}
+				return
+			}
+			bases = append(bases, x)
+		default:
+			bases = append(bases, v)
+		}
+	}
+	walk(v, 0)
+	return
+}
+
+// elemOfSlice: v is *(&S[i]): returns S.
+func elemOfSlice(v ssa.Value) ssa.Value {
+	ld, ok := unspill(v).(*ssa.UnOp)
+	if !ok {
+		return nil
+	}
+	ia, ok := ld.X.(*ssa.IndexAddr)
+	if !ok {
+		return nil
+	}
+	return ia.X
+}
+
+func c01Pipeline(c *Ctx, r *Result) {
+	procIface := c.Interface("engine", "Processor")
+	idxIface := c.Interface("engine", "RuleIndex")
+	fAction := c.Field("engine", "Rule", "Action")
+	fScopeMatch := c.Field("engine", "Rule", "ScopeMatch")
+	fSuppr := c.Field("engine", "Rule", "SuppressionList")
+	fName := c.Field("engine", "Rule", "Name")
+	if procIface == nil || idxIface == nil || fAction == nil || fScopeMatch == nil || fSuppr == nil || fName == nil {
+		r.Undecide("R01e: anchors of the ProcessEvent pipeline not found")
+		return
+	}
+	n := 0
+	for _, fn := range c.Implementations(procIface, "ProcessEvent") {
+		n++
+		key := c.FuncKey(fn)
+		pos := c.Pos(fn.Pos())
+		fail := func(site, msg string, p string) {
+			r.Instance("R01e", key+"#"+site, p, "finding", msg, true)
+			r.Report(Finding{Rule: "R01e", Site: key + "#" + site, Pos: p, Msg: key + ": " + msg})
+		}
+		// the candidates: the Match call on the event parameter
+		var match *ssa.Call
+		allInstrs(fn, func(in ssa.Instruction) {
+			if call, ok := in.(*ssa.Call); ok && call.Call.IsInvoke() && call.Call.Method.Name() == "Match" && types.Identical(call.Call.Value.Type().Underlying(), idxIface) {
+				match = call
+			}
+		})
+		if match == nil {
+			r.Undecide("R01e: no RuleIndex.Match call in %s", key)
+			continue
+		}
+		// the action call and its slice
+		var actionSlice ssa.Value
+		allInstrs(fn, func(in ssa.Instruction) {
+			call, ok := in.(*ssa.Call)
+			if !ok || call.Call.IsInvoke() {
+				return
+			}
+			if ld, ok := call.Call.Value.(*ssa.UnOp); ok {
+				if fa, ok := ld.X.(*ssa.FieldAddr); ok && fieldVar(fa) == fAction {
+					actionSlice = elemOfSlice(fa.X)
+				}
+			}
+		})
+		if actionSlice == nil {
+			r.Undecide("R01e: the rule loop of %s was not found", key)
+			continue
+		}
+		// scope test facts helper: a call IsAllowedAll(load elem.ScopeMatch) known true at `at`, on the cascade's scope
+		scopeOK := func(at ssa.Instruction, elem ssa.Value) bool {
+			for v := range FactsAt(at).TrueV {
+				call, ok := v.(*ssa.Call)
+				if !ok || !strings.HasSuffix(callName(call), "RuleScope.IsAllowedAll") {
+					continue
+				}
+				args := callArgs(call.Common())
+				if len(args) != 2 {
+					continue
+				}
+				ld, ok := args[1].(*ssa.UnOp)
+				if !ok {
+					continue
+				}
+				fa, ok := ld.X.(*ssa.FieldAddr)
+				if !ok || fieldVar(fa) != fScopeMatch || !equivValue(fa.X, elem, 0) {
+					continue
+				}
+				// the scope is the cascade's: Monitor.Scope() of a parameter
+				if sc, ok := unspill(args[0]).(*ssa.Call); ok && sc.Call.IsInvoke() && sc.Call.Method.Name() == "Scope" {
+					if _, isParam := sc.Call.Value.(*ssa.Parameter); isParam {
+						return true
+					}
+				}
+			}
+			return false
+		}
+		notSuppressed := func(at ssa.Instruction, elem ssa.Value) bool {
+			for v := range FactsAt(at).FalseV {
+				e, ok := v.(*ssa.Extract)
+				if !ok || e.Index != 1 {
+					continue
+				}
+				lk, ok := e.Tuple.(*ssa.Lookup)
+				if !ok {
+					continue
+				}
+				kl, ok := lk.Index.(*ssa.UnOp)
+				if !ok {
+					continue
+				}
+				fa, ok := kl.X.(*ssa.FieldAddr)
+				if ok && fieldVar(fa) == fName && equivValue(fa.X, elem, 0) {
+					return true
+				}
+			}
+			return false
+		}
+		// executing slice: built from appends
+		eApps, eBases := sliceAppends(actionSlice)
+		if len(eBases) > 0 || len(eApps) == 0 {
+			fail("executing", "the executed slice is not built only by appending filtered rules", pos)
+			continue
+		}
+		ok := true
+		var tSlice ssa.Value
+		for _, app := range eApps {
+			for _, el := range appendedElems(app) {
+				src := elemOfSlice(el)
+				if src == nil {
+					fail("executing-elem", "a rule appended to the executed list is not an element of the triggering list", c.Pos(c.InstrPos(app)))
+					ok = false
+					continue
+				}
+				tSlice = src
+				if !notSuppressed(app, unspill(el)) {
+					fail("suppression-filter", "a rule is appended to the executed list on a path where it is not known to be absent from the suppression list", c.Pos(c.InstrPos(app)))
+					ok = false
+				}
+			}
+		}
+		if tSlice == nil {
+			continue
+		}
+		// triggering slice: built from appends of candidates under the scope test
+		tApps, tBases := sliceAppends(tSlice)
+		if len(tBases) > 0 || len(tApps) == 0 {
+			fail("triggering", "the executed rules are taken from a list that is not built by appending scope-checked candidates (the scope filter is bypassed)", pos)
+			continue
+		}
+		for _, app := range tApps {
+			for _, el := range appendedElems(app) {
+				src := elemOfSlice(el)
+				if src == nil || unspill(src) != ssa.Value(match) {
+					fail("candidates", "a rule enters the triggering list that is not an element of RuleIndex.Match(event)", c.Pos(c.InstrPos(app)))
+					ok = false
+					continue
+				}
+				if !scopeOK(app, unspill(el)) {
+					fail("scope-filter", "a candidate enters the triggering list without a successful IsAllowedAll(candidate.ScopeMatch) on the cascade's scope", c.Pos(c.InstrPos(app)))
+					ok = false
+				}
+			}
+		}
+		// suppression entries only from in-scope candidates
+		nSup := 0
+		allInstrs(fn, func(in ssa.Instruction) {
+			mu, isMU := in.(*ssa.MapUpdate)
+			if !isMU {
+				return
+			}
+			mt, isMap := mu.Map.Type().Underlying().(*types.Map)
+			if !isMap || mt.Elem().String() != "bool" {
+				return
+			}
+			nSup++
+			// key = element of <cand>.SuppressionList
+			ks := elemOfSlice(mu.Key)
+			good := false
+			if ks != nil {
+				if ld, isLoad := unspill(ks).(*ssa.UnOp); isLoad {
+					if fa, isFA := ld.X.(*ssa.FieldAddr); isFA && fieldVar(fa) == fSuppr {
+						cand := fa.X
+						if src := elemOfSlice(cand); src != nil && unspill(src) == ssa.Value(match) && scopeOK(in, unspill(cand)) {
+							good = true
+						}
+					}
+				}
+			}
+			if !good {
+				fail("suppression-source", "a name enters the suppression list that does not come from the SuppressionList of a matching candidate under a successful scope test (an out-of-scope rule could suppress others)", c.Pos(c.InstrPos(in)))
+				ok = false
+			}
+		})
+		if nSup == 0 {
+			fail("suppression-none", "no suppression list is built", pos)
+			ok = false
+		}
+		if ok {
+			r.Instance("R01e", key+"#pipeline", pos, "ok", "executed ⊆ triggering∖suppressed; triggering = Match(event) filtered by IsAllowedAll on the cascade's scope; suppression entries only from in-scope candidates", true)
+		}
+	}
+	r.Floor("R01e", n, 1)
+}
+
+// ---- R01f: the Match path never appends into, or returns, index storage -------------------------
+
+type freshCtx struct {
+	c       *Ctx
+	callers map[*ssa.Function][]*ssa.Call // static + CHA callers inside the analysed set
+	memo    map[ssa.Value]int             // 0 unknown, 1 in progress (assumed fresh), 2 fresh, 3 not fresh
+	why     map[ssa.Value]string
+}
+
+// fresh: the slice value does not share its backing array with anything stored in the heap
+// before the current Match call (nil, make, append onto a fresh slice, a fresh callee result).
+func (fc *freshCtx) fresh(v ssa.Value) (bool, string) {
+	v = unspill(v)
+	switch fc.memo[v] {
+	case 1, 2:
+		return true, ""
+	case 3:
+		return false, fc.why[v]
+	}
+	fc.memo[v] = 1
+	ok, why := fc.fresh1(v)
+	if ok {
+		fc.memo[v] = 2
+	} else {
+		fc.memo[v] = 3
+		fc.why[v] = why
+	}
+	return ok, why
+}
+
+func (fc *freshCtx) fresh1(v ssa.Value) (bool, string) {
+	c := fc.c
+	switch x := v.(type) {
+	case *ssa.Const:
+		return true, ""
+	case *ssa.MakeSlice:
+		return true, ""
+	case *ssa.Phi:
+		for _, e := range x.Edges {
+			if ok, why := fc.fresh(e); !ok {
+				return false, why
+			}
+		}
+		return true, ""
+	case *ssa.Slice:
+		// a reslice of a fresh slice is fresh; a slice of an array allocation is fresh
+		if a, ok := x.X.(*ssa.Alloc); ok && a.Heap || ok {
+			return true, ""
+		}
+		return fc.fresh(x.X)
+	case *ssa.Call:
+		if isBuiltinCall(x, "append") {
+			return fc.fresh(x.Call.Args[0])
+		}
+		callees := c.Callees(x)
+		if len(callees) == 0 {
+			return false, "result of an unresolved call at " + c.Pos(c.InstrPos(x))
+		}
+		for _, callee := range callees {
+			if !c.inModule(callee) || len(callee.Blocks) == 0 {
+				return false, "result of " + c.FuncKey(callee)
+			}
+			for _, rv := range returnedValues(callee, 0) {
+				if ok, why := fc.fresh(rv); !ok {
+					return false, "result of " + c.FuncKey(callee) + " ← " + why
+				}
+			}
+		}
+		return true, ""
+	case *ssa.TypeAssert:
+		return false, "the list held by " + accessPath(x.X) + " (an existing list)"
+	case *ssa.Extract:
+		if ta, ok := x.Tuple.(*ssa.TypeAssert); ok {
+			return false, "the list held by " + accessPath(ta.X) + " (an existing list)"
+		}
+		if call, ok := x.Tuple.(*ssa.Call); ok {
+			callees := c.Callees(call)
+			if len(callees) == 0 {
+				return false, "result of an unresolved call at " + c.Pos(c.InstrPos(call))
+			}
+			for _, callee := range callees {
+				if !c.inModule(callee) || len(callee.Blocks) == 0 {
+					return false, "result of " + c.FuncKey(callee)
+				}
+				for _, rv := range returnedValues(callee, x.Index) {
+					if ok, why := fc.fresh(rv); !ok {
+						return false, "result of " + c.FuncKey(callee) + " ← " + why
+					}
+				}
+			}
+			return true, ""
+		}
+	case *ssa.Parameter:
+		fn := x.Parent()
+		idx := -1
+		for i, p := range fn.Params {
+			if p == x {
+				idx = i
+			}
+		}
+		calls := fc.callers[fn]
+		if len(calls) == 0 || idx < 0 {
+			return false, "parameter " + x.Name() + " of " + c.FuncKey(fn) + " (callers unknown)"
+		}
+		for _, call := range calls {
+			args := callArgs(call.Common())
+			if idx >= len(args) {
+				return false, "parameter " + x.Name() + " of " + c.FuncKey(fn)
+			}
+			if ok, why := fc.fresh(args[idx]); !ok {
+				return false, "argument at " + c.Pos(c.InstrPos(call)) + " ← " + why
+			}
+		}
+		return true, ""
+	case *ssa.UnOp:
+		if a, ok := x.X.(*ssa.Alloc); ok {
+			for _, s := range cellSources(a) {
+				if ok, why := fc.fresh(s); !ok {
+					return false, why
+				}
+			}
+			return true, ""
+		}
+		if fa, ok := x.X.(*ssa.FieldAddr); ok {
+			if f := fieldVar(fa); f != nil {
+				return false, "the stored slice " + typeShort(derefType(fa.X.Type())) + "." + f.Name() + " (loaded in " + c.FuncKey(x.Parent()) + ")"
+			}
+		}
+		return false, "a slice loaded from memory at " + c.Pos(c.InstrPos(x))
+	}
+	return false, fmt.Sprintf("%T at %s", v, c.Pos(v.Pos()))
+}
+
+func c01Fresh(c *Ctx, r *Result) {
+	idxIface := c.Interface("engine", "RuleIndex")
+	if idxIface == nil {
+		r.Undecide("R01f: engine.RuleIndex not found")
+		return
+	}
+	roots := c.Implementations(idxIface, "Match")
+	reach := c.Reachable(roots, func(f *ssa.Function) bool { return c.PkgOf(f) != "engine" })
+	fc := &freshCtx{c: c, callers: map[*ssa.Function][]*ssa.Call{}, memo: map[ssa.Value]int{}, why: map[ssa.Value]string{}}
+	inSet := map[*ssa.Function]bool{}
+	for _, fn := range reach.Order {
+		inSet[fn] = true
+	}
+	for _, fn := range reach.Order {
+		allInstrs(fn, func(in ssa.Instruction) {
+			if call, ok := in.(*ssa.Call); ok {
+				for _, callee := range c.Callees(call) {
+					if inSet[callee] {
+						fc.callers[callee] = append(fc.callers[callee], call)
+					}
+				}
+			}
+		})
+	}
+	n := 0
+	for _, fn := range reach.Order {
+		key := c.FuncKey(fn)
+		k := 0
+		allInstrs(fn, func(in ssa.Instruction) {
+			call, ok := in.(*ssa.Call)
+			if !ok || !isBuiltinCall(call, "append") {
+				return
+			}
+			if _, isSlice := call.Type().Underlying().(*types.Slice); !isSlice {
+				return
+			}
+			n++
+			site := fmt.Sprintf("%s#append#%d", key, k)
+			k++
+			pos := c.Pos(c.InstrPos(call))
+			if ok, why := fc.fresh(call.Call.Args[0]); !ok {
+				r.Instance("R01f", site, pos, "finding", "append destination may alias "+why, true)
+				r.Report(Finding{Rule: "R01f", Site: site, Pos: pos, Path: reach.PathTo(c, fn),
+					Msg: key + ": on the Match path an append extends a slice that may share its backing array with " + why + " — a match would write into the shared index (and concurrent matches into each other)"})
+				return
+			}
+			r.Instance("R01f", site, pos, "ok", "append destination is fresh (nil / make / append chain / fresh callee result)", true)
+		})
+	}
+	for _, fn := range roots {
+		key := c.FuncKey(fn)
+		n++
+		bad := ""
+		for _, rv := range returnedValues(fn, 0) {
+			if ok, why := fc.fresh(rv); !ok {
+				bad = why
+			}
+		}
+		pos := c.Pos(fn.Pos())
+		if bad != "" {
+			r.Instance("R01f", key+"#result", pos, "finding", "Match result may alias "+bad, true)
+			r.Report(Finding{Rule: "R01f", Site: key + "#result", Pos: pos,
+				Msg: key + ": the slice returned by Match may share its backing array with " + bad + " — callers filter, sort and extend it"})
+			continue
+		}
+		r.Instance("R01f", key+"#result", pos, "ok", "Match returns a fresh slice", true)
+	}
+	r.Floor("R01f", n, 3)
 }
